@@ -41,6 +41,31 @@ def check(sh, doc, sseed, suite):
     on, err_on = parse(text, allow_properties=True)
     off, err_off = parse(text)
     exp = am.expected(doc)
+    # ---------------- the option has the same effect when the source is a path or an open file
+    if hash(text) % 4 == 0:
+        import os
+        import tempfile
+        from pathlib import Path
+        from pydbml import PyDBML
+        fd, pth = tempfile.mkstemp(suffix='.dbml', dir=os.environ.get('PV_SCRATCH') or None)
+        try:
+            with os.fdopen(fd, 'w', encoding='utf8') as f:
+                f.write(text)
+            for route in ('path', 'file'):
+                try:
+                    if route == 'path':
+                        dbf = PyDBML(Path(pth), allow_properties=True)
+                    else:
+                        with open(pth, encoding='utf8') as fh:
+                            dbf = PyDBML(fh, allow_properties=True)
+                    okf = dbf.allow_properties is True and (err_on is None and walk.content(dbf) == walk.content(on))
+                except Exception as e:  # noqa
+                    okf = err_on is not None and type(e) is type(err_on)
+                sh.count('obs.option_through_file_routes')
+                if not okf:
+                    sh.violation('on', f'on:option-lost-on-{route}-route', f'PyDBML({route}, allow_properties=True) differs from the string route', case)
+        finally:
+            os.unlink(pth)
     # ---------------- option on
     if err_on is not None:
         cls, where = monitors.classify_exc(err_on)
@@ -203,7 +228,7 @@ def run_shard(spec, tier, seed, budget_s):
 def conclusive(agg, tier):
     c = agg['counters']
     return [f'{k} is zero' for k in ('obs.docs.product.props', 'obs.docs.random.props', 'obs.docs.random.noprops', 'obs.properties_parsed',
-                                     'obs.off_rejected', 'obs.flag_flips', 'obs.on_off_differentials') if not c.get(k)]
+                                     'obs.off_rejected', 'obs.flag_flips', 'obs.on_off_differentials', 'obs.option_through_file_routes') if not c.get(k)]
 
 
 def replay(v):
